@@ -228,6 +228,22 @@ pub fn drive_errnames() -> Vec<String> {
     fails
 }
 
+// ------------------------------------------------------------------------------------------------ function names (C23)
+// exhaustive: every built-in function in every language; the printed name must look up as the same function
+pub fn drive_fnnames() -> Vec<String> {
+    use crate::functions::Function;
+    let mut fails = vec![];
+    for l in ["en", "es", "fr", "de", "it"] {
+        let Ok(lang) = crate::language::get_language(l) else { fails.push(format!("language {l} missing")); continue; };
+        for f in Function::into_iter() {
+            let name = f.to_localized_name(lang);
+            let back = lang.functions.lookup(&name);
+            if back.as_ref() != Some(&f) { fails.push(format!("{l} {name}: {f:?} looks up as {back:?}")); }
+        }
+    }
+    fails
+}
+
 // ------------------------------------------------------------------------------------------------ displacement (C12-C15, C33)
 fn spec_shift(x: i32, p: i32, k: i32) -> Option<i32> {
     if k >= 0 { if x >= p { Some(x + k) } else { Some(x) } } else if x < p { Some(x) } else if x < p - k { None } else { Some(x + k) }
@@ -602,6 +618,7 @@ pub fn run(driver: &str) -> Vec<String> {
         "colcodec" => drive_colcodec(),
         "dates" => drive_dates(),
         "errnames" => drive_errnames(),
+        "fnnames" => drive_fnnames(),
         "refshift" => drive_refshift(),
         "finite" => drive_finite(),
         "atomic" => drive_atomic(),
